@@ -197,3 +197,16 @@ PROPS["C11"] = {
     ],
     "floor_q": 10, "floor_t": 500,
 }
+
+PROPS["C14"] = {
+    "level": "exploration",
+    "technique": "rapid-generated hostile NRI event sequences (unknown/removed/duplicate ids, out-of-order lifecycle, absent optional sub-messages, malformed annotation values) against a real in-process resource manager and against the three side plugins; oracle = no handler panics (recover) and a fresh valid request is still served after a drain; native go fuzzing of annotation values in the thorough tier",
+    "rule": "resource manager (both policies): 4-40 handler calls over RunPodSandbox/CreateContainer/StartContainer/UpdateContainer/StopContainer/RemoveContainer/StopPodSandbox/RemovePodSandbox/Synchronize with ids drawn from known, unknown and duplicated ones, 8 shapes of absent sub-messages, 16 interpreted annotation keys x 3 forms x 31 hostile values and 13 affinity strings; side plugins: CreateContainer/Configure (and Start/Stop for memtierd) with generated classes, configurations and the same hostile values; "
+            "non-trivial = at least one handler returned an error or was addressed to an unknown id (side plugins: an interpreted annotation key was present); distinct = hash of the case",
+    "assumptions": [FIXTURE, "log.Fatal / os.Exit inside a handler would end the test process and is reported as inconclusive (exit 2), not as a violation"],
+    "units": [
+        {"name": "hostile-ta", "pkg": RESMGR, "run": "^TestVerifC14TA$", "replay_run": "^TestVerifC14Replay$", "q": 300, "t": 60000, "per_proc": 600},
+        {"name": "hostile-balloons", "pkg": RESMGR, "run": "^TestVerifC14Balloons$", "replay_run": "^TestVerifC14Replay$", "q": 300, "t": 60000, "per_proc": 600},
+    ],
+    "floor_q": 20, "floor_t": 1000,
+}
